@@ -33,7 +33,7 @@ for d in sorted(glob.glob(os.path.join(ROOT, "seeded", "C*-*"))):
         tiers = []
         inq = False
         for hn in dict.fromkeys(hs):
-            t = "quick" if prop in qf.get(hn, []) else "thorough" if prop in tf.get(hn, []) else "not in a tier of " + prop
+            t = "quick" if prop in qf.get(hn, []) else "thorough" if prop in tf.get(hn, []) else ("not in a tier of " + prop + "; quick tier of " + "/".join(qf.get(hn, [])) if qf.get(hn) else "not in a tier of " + prop)
             inq = inq or t == "quick"
             tiers.append("`%s` (%s)" % (hn, t))
         nt += 1
